@@ -149,7 +149,7 @@ def _profile(cfg) -> gg.Profile:
 
 @st.composite
 def cases(draw):
-    r = draw(st.randoms(use_true_random=False))
+    r = core.rng(draw)
     cfg = {"undefined": "default", "autoescape": False, "strict_filters": True, "extra": False, "flags": {}}
     prof = _profile(cfg)
     main = gg.Gen(r, prof).template()
